@@ -45,7 +45,9 @@ def generate(ctx):
                "sob": rng.choice([False, None, True]), "B": rng.randint(1, 3),
                "shape": list(rng.choice([(3,), (2, 2), (1,)])), "inplace": rng.random() < 0.5,
                "Q": rng.choice([1.0, 2.5, -1.5]), "tc": rng.choice([2.0, 5.0, 20.0]), "tr": rng.choice([0.5, 1.0]),
-               "p": rng.choice([0.2, 0.5]), "seed": rng.randrange(1 << 30), "queries": queries}
+               "p": rng.choice([0.2, 0.5]), "seed": rng.randrange(1 << 30), "queries": queries,
+               # step time reached through the dt setter after construction instead of the constructor
+               "built_dt": rng.choice([None, None, None, 2 * dt, 0.5 * dt, dt + 0.25])}
 
 
 def _build(desc, inplace):
@@ -53,6 +55,9 @@ def _build(desc, inplace):
     common = dict(spike_charge=desc["Q"], delay=desc["delay"], interp_tol=desc["tol"], current_overbound=desc["cob"],
                   spike_overbound=desc["sob"], batch_size=desc["B"], inplace=inplace)
     shape = tuple(desc["shape"])
+    final_dt = desc["dt"]
+    if desc.get("built_dt"):
+        desc = {**desc, "dt": desc["built_dt"]}
     if k == "delta":
         s = DeltaCurrent(shape, desc["dt"], interp_mode=desc["interp"], **common)
     elif k == "deltaplus":
@@ -62,6 +67,8 @@ def _build(desc, inplace):
     else:
         s = DoubleExponentialCurrent(shape, desc["dt"], tc_decay=desc["tc"] + desc["tr"], tc_rise=desc["tr"],
                                      spike_interp_mode=desc["interp"], **common)
+    if s.dt != final_dt:
+        s.dt = final_dt
     s.to(torch.float64)
     return s
 
